@@ -842,7 +842,7 @@ func c12wfmt(rc *vk.Rec) {
 	}
 	// mutants and slices
 	phase = "wfmt"
-	n := rc.N(12800, 2000000)
+	n := rc.N(12800, 1500000)
 	for idx := int64(0); idx < int64(n); idx++ {
 		if rc.SkipCase(phase, idx) {
 			continue
@@ -1721,7 +1721,7 @@ func c12prepare(rc *vk.Rec, b []byte) (text []byte, feats []uint32, ok bool) {
 func c12dumb(rc *vk.Rec, hangFamily bool) {
 	if hangFamily {
 		phase := "dumbh"
-		n := rc.N(9600, 2000000)
+		n := rc.N(9600, 1500000)
 		for idx := int64(0); idx < int64(n); idx++ {
 			if rc.SkipCase(phase, idx) {
 				continue
@@ -1784,7 +1784,7 @@ func c12dumb(rc *vk.Rec, hangFamily bool) {
 		total += len(f.starts)
 	}
 	phase = "dumb-slice"
-	n := rc.N(9600, 2000000)
+	n := rc.N(9600, 1500000)
 	for idx := int64(0); idx < int64(n); idx++ {
 		if rc.SkipCase(phase, idx) {
 			continue
@@ -1832,7 +1832,7 @@ func c12dumb(rc *vk.Rec, hangFamily bool) {
 	rc.Finish()
 
 	phase = "dumb-gram"
-	n = rc.N(48000, 12000000)
+	n = rc.N(48000, 8000000)
 	for idx := int64(0); idx < int64(n); idx++ {
 		if rc.SkipCase(phase, idx) {
 			continue
